@@ -28,7 +28,8 @@ func init() {
 
 var stdHost = &yc.HostSpec{
 	Funcs: []yc.FuncSpec{{Name: "probe", Echo: true}, {Name: "note"}},
-	Cmds:  []yc.CmdSpec{{Name: "act"}, {Name: "beep"}, {Name: "later", Deferred: true}, {Name: "laterfail", Deferred: true, Fails: true}},
+	Cmds:  []yc.CmdSpec{{Name: "act"}, {Name: "beep"}, {Name: "later", Deferred: true}, {Name: "laterfail", Deferred: true, Fails: true},
+		{Name: "laterclose", Deferred: true, ByClose: true}, {Name: "closed", ByClose: true}},
 	Vars:  map[string]yc.Value{"f": yc.Bool(false)},
 }
 
